@@ -563,12 +563,20 @@ def runFload (r : Report) (s : Section) (l : Line) (fs : Fields) (ext : String) 
   let oc : Opts := { confOpts with env := envOfTy (.struct fs) }
   let j' := if useEnv then expandDoc j else j
   let impl := l.obs.headD "?"
+  -- keys colliding up to case (expansion does not touch keys): toLowerCaseKeyMap walks the keys of every object in
+  -- ascending order and the later one wins — the association-list model is faithful only on the sorted document
+  -- (`loadJsonDet` = `loadJsonO ∘ sortDoc`, as in `cload`; regression: thorough seed 15840 section 1969)
+  let coll := !(noCaseCollision j)
+  let lj (o : Opts) (d : J) : R Val := if coll then loadJsonDet o fs d else loadJsonO o fs d
+  let ly (o : Opts) (d : J) : R Val := if coll then loadYamlDet o fs (embY d) else loadYamlO o fs (embY d)
+  let lt (o : Opts) (t : T) : R Val := if coll then loadTomlDet o fs t else loadTomlO o fs t
+  if coll then r := r.addCover "fload-collision-sorted-walk"
   let model : String :=
     match loaderOf ext.toList with
     | none => "err"
-    | some .json => eitherF32 (fun o => printRes (loadJsonO o fs j')) oc (some impl)
-    | some .yaml => eitherF32 (fun o => printRes (loadYamlO o fs (embY j'))) oc (some impl)
-    | some .toml => eitherF32 (fun o => tomlFront j' (fun t => printRes (loadTomlO o fs t))) oc (some impl)
+    | some .json => eitherF32 (fun o => printRes (lj o j')) oc (some impl)
+    | some .yaml => eitherF32 (fun o => printRes (ly o j')) oc (some impl)
+    | some .toml => eitherF32 (fun o => tomlFront j' (fun t => printRes (lt o t))) oc (some impl)
   let im := tyInModel (.struct fs)
   r := aliasMonitor r s l
   if api = "Bytes" ∧ useEnv then r := r.mismatch s.idx l.idx "Bytes-has-no-options" (joinSp l.op)
@@ -578,18 +586,18 @@ def runFload (r : Report) (s : Section) (l : Line) (fs : Fields) (ext : String) 
   if im ∧ impl ≠ model then r := r.mismatch s.idx l.idx model impl
   if ¬ im then r := r.addCover "outside-model-monitored-only"
   let want := if api = "MustLoad" ∧ (if im then model else impl).startsWith "ok:" then ["M=same"] else []
-  if dropAL (l.obs.drop 1) ≠ want then r := r.mismatch s.idx l.idx (joinSp (model :: want)) (joinSp l.obs)
+  if dropAL (l.obs.drop 1) ≠ want then r := r.mismatch s.idx l.idx (joinSp (model :: want)) (joinSp (dropAL l.obs))
   -- monitor: the result on the file is the result of the format's loader on the (un)expanded document
   if impl = "panic" then
-    let cls := if printRes (loadJsonO { oc with f32Pinned := true } fs j') = "panic" then "env-float32-pointer" else "panic"
+    let cls := if printRes (lj { oc with f32Pinned := true } j') = "panic" then "env-float32-pointer" else "panic"
     r := r.violation s.idx l.idx s!"loader-panicked class={cls} at=conf.{api} ext={ext}"
   if l.obs.contains "M=diff" then
     r := r.violation s.idx l.idx s!"MustLoad-differs-from-Load class=file-api ext={ext}"
   if docHasDollar j ∧ impl.startsWith "ok:" then
     let other := match loaderOf ext.toList with
-      | some .json => printRes (loadJsonO oc fs (if useEnv then j else expandDoc j))
-      | some .yaml => printRes (loadYamlO oc fs (embY (if useEnv then j else expandDoc j)))
-      | some .toml => tomlFront (if useEnv then j else expandDoc j) (fun t => printRes (loadTomlO oc fs t))
+      | some .json => printRes (lj oc (if useEnv then j else expandDoc j))
+      | some .yaml => printRes (ly oc (if useEnv then j else expandDoc j))
+      | some .toml => tomlFront (if useEnv then j else expandDoc j) (fun t => printRes (lt oc t))
       | none => "err"
     if impl = other ∧ impl ≠ model then
       r := r.violation s.idx l.idx
